@@ -270,9 +270,19 @@ def ifacePut (st : St) (o : Opts) (r : Rec) (isNew : Bool) : St × Out :=
   else
     let r1 := if isNew then { r with md := { r.md with deleted := false, expires := 0 } } else r
     let r2 := applyOpts o r1
-    if o.delayed && !r2.md.deleted then
-      -- delayed write: into the write cache, no controller involved
-      ({ st with wcache := sPut st.wcache r2.key r2 }, {})
+    if o.delayed then
+      if !r2.md.deleted then
+        -- delayed write: into the write cache, no controller involved
+        ({ st with wcache := sPut st.wcache r2.key r2 }, {})
+      else
+        -- a deleted record is removed from the read cache and written through; removing the cache entry
+        -- evicts a pending delayed write of the same key, which `cacheEvictHandler` puts first (its error is only logged)
+        match sGet st.wcache r2.key with
+        | some old =>
+          let (st1, o1) := ctrlPut { st with wcache := sErase st.wcache r2.key } old
+          let (st2, o2) := ctrlPut st1 r2
+          (st2, { o2 with calls := o1.calls ++ o2.calls })
+        | none => ctrlPut st r2
     else ctrlPut st r2
 
 /-- The in-place modifications of `Interface.Delete/MakeSecret/MakeCrownJewel/SetAbsoluteExpiry/InsertValue`. -/
